@@ -118,8 +118,11 @@ pub fn arb_dir() -> BoxedStrategy<String> {
 pub const KEY_FIELDS: &[&str] = &["a", "b", "c"];
 
 pub fn arb_sort_keys() -> BoxedStrategy<Vec<SortKey>> {
-    (1usize..=3, vec((arb_dir(), any::<bool>()), 3), any::<u8>())
-        .prop_map(|(n, dirs, perm)| {
+    // 1..4 keys; usually distinct fields, sometimes a field repeated (also with a key in
+    // between, as in `--sort-by .a --sort-by .b --sort-by .a`): a repeated key is redundant,
+    // the first occurrence decides
+    (1usize..=4, vec((arb_dir(), any::<bool>()), 4), any::<u8>(), vec(0usize..3, 4), prop::bool::weighted(0.25))
+        .prop_map(|(n, dirs, perm, picks, repeat)| {
             let mut names: Vec<&str> = KEY_FIELDS.to_vec();
             if perm % 2 == 1 {
                 names.swap(0, 1);
@@ -127,7 +130,12 @@ pub fn arb_sort_keys() -> BoxedStrategy<Vec<SortKey>> {
             if perm % 3 == 1 {
                 names.swap(1, 2);
             }
-            (0..n).map(|i| SortKey { field: names[i].to_string(), dir: dirs[i].0.clone(), eq_syntax: dirs[i].1 }).collect()
+            (0..n)
+                .map(|i| {
+                    let field = if repeat || i >= 3 { KEY_FIELDS[picks[i]] } else { names[i] };
+                    SortKey { field: field.to_string(), dir: dirs[i].0.clone(), eq_syntax: dirs[i].1 }
+                })
+                .collect()
         })
         .boxed()
 }
@@ -205,7 +213,8 @@ impl Check for C07SortBy {
         let info = Info::new(tie && distinct && (case.keys.len() == 1 || broken))
             .class_if(case.keys.iter().any(|k| k.desc()) && tie, "desc_with_ties")
             .class_if(exp.len() < case.recs.len(), "absent_keys_dropped")
-            .class_if(case.keys.len() == 3, "three_keys")
+            .class_if(case.keys.len() >= 3, "three_or_more_keys")
+            .class_if({ let mut f: Vec<&String> = case.keys.iter().map(|k| &k.field).collect(); f.sort(); f.windows(2).any(|w| w[0] == w[1]) }, "repeated_key_expression")
             .class_if(case.keys.len() == 2, "two_keys")
             .class_if(case.keys.iter().any(|k| !k.dir.is_empty() && !k.eq_syntax), "space_direction_syntax")
             .obs(json!({"ids": got.clone()}));
